@@ -434,7 +434,13 @@ func DHCPMarshalOption(o DHCPOption) (out []byte, err error) {
 	return
 }
 
-func (self dhcpoption) Len() uint16      { return uint16(len(self.data) + 2) }
+func (self dhcpoption) Len() uint16 {
+	// pad and end options are a lone tag byte on the wire (DHCPMarshalOption)
+	if self.tag == DHCP_OPT_PAD || self.tag == DHCP_OPT_END {
+		return 1
+	}
+	return uint16(len(self.data) + 2)
+}
 func (self dhcpoption) Bytes() []byte    { return self.data }
 func (self dhcpoption) OptionType() byte { return self.tag }
 
